@@ -20,9 +20,14 @@ tie    : (T) translate/t_cli.py regenerates coq/gen/Cli.v from src/cli/main.cpp 
                     "one sample per line"; ragged files of every shape (deviations that cancel out,
                     first / last / middle row, only shorter / only longer, permutations, rows without
                     a number) and EVERY ragged length vector of <= 3 (thorough: 4) lines x 0..3 values;
-           library: deterministic methods with option mixes, --precompute, transposition flags and
-                    projection files against in-process library calls with the parameters the
-                    specification names.
+           library: deterministic and (seeded) randomised methods with option mixes, --precompute,
+                    transposition flags and projection files against in-process library calls with the
+                    parameters the specification names, EXACT text; every case is also run with the
+                    --precompute flag toggled and both runs must write the same text ("changes nothing
+                    but speed"); data geometries: dyadic lattice, common / per-column offsets 1e3..1e9
+                    (thorough 1e12) times the spread, huge / tiny magnitudes (1e+-100 .. 1e+-300), exact
+                    duplicates, tie lattices scaled by non-powers-of-two, more features than samples,
+                    separated clusters; a sweep runs every deterministic method over every geometry.
 search : when an obligation or the correspondence breaks: the same streams at a larger budget.
 """
 import hashlib
@@ -50,6 +55,10 @@ TRUSTED = [
     "oracles: `istream >> double` on file tokens (recogniser in "
     "c20_driver.ml for the generated token classes), `ostream << double` (%g, 6 digits) applied to both sides",
     "the library itself is an oracle of cli_main (the theorems say what reaches it and what is written)",
+    "--precompute vs direct: proved for the VALUES of the tables (exact arithmetic; the expanded formula "
+    "|a|^2+|b|^2-2<a,b> is proved equal to |a-b|^2 over Z and refuted in binary64 by a PrimFloat witness); real runs "
+    "are compared as exact text, single-threaded (OMP_NUM_THREADS=1: under several threads the DIRECT path of "
+    "ltsa/npe/lltsa is itself not reproducible run to run, which is not this property's business)",
     "extraction (ExtrOcamlBasic only) + OCaml 4.13.1 + coq/extract/c20_driver.ml (hex transport, printing)",
     "translate/t_cli.py shape tables: read_data and matrix_from_callback are compared as canonical token text "
     "(layout, comments, qualifiers, names of locals, literal text, ++i/i++, braces around one statement, integer "
@@ -358,9 +367,10 @@ def gen_single_option_cases(tables):
             if kind == "DFlag":
                 cases.append([(n, None)])
             elif kind == "DInt":
-                cases += [[(n, "7")], [(n, "x7")], [(n, "-2")], [(n, "0")]]
+                # special values: 0, and the documented default written out (must act as the option left unset)
+                cases += [[(n, "7")], [(n, "x7")], [(n, "-2")], [(n, "0")], [(n, str(dflt[1]))]]
             elif kind == "DDbl":
-                cases += [[(n, "0.75")], [(n, "zz")], [(n, "-0.25")]]
+                cases += [[(n, "0.75")], [(n, "zz")], [(n, "-0.25")], [(n, "0")], [(n, str(dflt[2]))]]
             else:
                 if n in ("m", "method"):
                     for key, _ in maps.get("DIMENSION_REDUCTION_METHODS", []):
@@ -733,18 +743,91 @@ def write_text(rows, d):
     return "".join(d.join(fmt(x) for x in r) + "\n" for r in rows)
 
 
-def gen_lib_case(rng, tables):
+# ---- geometry of the data handed to the library ------------------------------------------------------
+# "--precompute changes nothing but speed" (and "the tool writes what the library computes") must hold for
+# every input file, not only for data of ordinary magnitude around the origin.  A tabulation that replaces the
+# direct difference by an expanded / hoisted formula (|a|^2 + |b|^2 - 2<a,b>, differences of cached norms, float
+# tables) agrees with the callback on such data and cancels catastrophically when the samples sit far from the
+# origin relative to their mutual distances; squares overflow for huge magnitudes and underflow for tiny ones.
+#   lattice        distinct points on a coarse dyadic lattice around the origin (double arithmetic exact)
+#   offset_common  a cloud of spread 4 translated by c*(1,..,1), c = 4 * 10^e, e = 3..9 (thorough: ..12)
+#   offset_percol  a different offset per column (magnitudes 1 .. 10^e, both signs, some columns untouched)
+#   huge / tiny    the cloud scaled by 10^e, e in 100..300 / -300..-20 (squares overflow / underflow)
+#   dups           generic data with exact duplicate samples
+#   ties_scaled    an integer lattice (many exact ties) scaled by a non-power-of-two, samples permuted
+#   wide           more features than samples
+#   clusters       two clusters 10^3 .. 10^12 apart (weakly coupled neighbourhood graph)
+GEOMETRIES = ["lattice", "offset_common", "offset_percol", "huge", "tiny", "dups", "ties_scaled", "wide", "clusters"]
+OFFSET_EXPONENTS = [3, 4, 5, 6, 7, 8, 9]
+
+
+def gen_points(rng, geom, big=False, exponent=None):
     n, dim = rng.choice([10, 12, 16]), rng.choice([3, 4])
-    pts = [[rng.randrange(0, 17) / 4.0 for _ in range(dim)] for _ in range(n)]
-    # distinct points on a coarse dyadic lattice
-    seen, uniq = set(), []
-    for p in pts:
-        while tuple(p) in seen:
-            p = [x + 0.25 * rng.randrange(1, 8) for x in p]
-        seen.add(tuple(p))
-        uniq.append(p)
+    if geom == "wide":
+        n, dim = rng.choice([5, 6, 8]), rng.choice([9, 12])
+    if geom == "ties_scaled":
+        s = rng.choice([3.0, 0.1, 1e-3, 7e5, 1.0 / 3.0])
+        return [[float(rng.randrange(0, 4)) * s for _ in range(dim)] for _ in range(n)], {"scale": s}
+    if rng.random() < 0.5 or geom == "lattice":
+        pts = [[rng.randrange(0, 17) / 4.0 for _ in range(dim)] for _ in range(n)]
+        # distinct points on a coarse dyadic lattice
+        seen, base = set(), []
+        for p in pts:
+            while tuple(p) in seen:
+                p = [x + 0.25 * rng.randrange(1, 8) for x in p]
+            seen.add(tuple(p))
+            base.append(p)
+    else:
+        base = [[rng.uniform(0.0, 4.0) for _ in range(dim)] for _ in range(n)]
+    info = {}
+    if geom == "offset_common":
+        e = exponent if exponent is not None else rng.choice(OFFSET_EXPONENTS + ([10, 12] if big else []))
+        c = 4.0 * 10.0 ** e * rng.choice([1, 1, -1])
+        base = [[x + c for x in p] for p in base]
+        info = {"offset_over_spread": "1e%d" % e}
+    elif geom == "offset_percol":
+        e = exponent if exponent is not None else rng.choice(OFFSET_EXPONENTS + ([10, 12] if big else []))
+        off = [4.0 * 10.0 ** rng.choice([0, e, max(0, e - 2), e]) * rng.choice([1, -1, 0.37, 0]) for _ in range(dim)]
+        if all(abs(o) < 4.0 * 10.0 ** e for o in off):
+            off[rng.randrange(dim)] = 4.0 * 10.0 ** e
+        base = [[x + o for x, o in zip(p, off)] for p in base]
+        info = {"offset_over_spread": "1e%d" % e, "offsets": off}
+    elif geom in ("huge", "tiny"):
+        e = exponent if exponent is not None else \
+            rng.choice([100, 150, 153, 155, 200, 300] if geom == "huge" else [-300, -200, -150, -100, -20])
+        base = [[x * 10.0 ** e for x in p] for p in base]
+        info = {"scale": "1e%d" % e}
+    elif geom == "dups":
+        for _ in range(rng.choice([1, 2, 4])):
+            base[rng.randrange(n)] = list(base[rng.randrange(n)])
+    elif geom == "clusters":
+        gap = 10.0 ** rng.choice([3, 6, 9, 12])
+        base = [[x + (gap if i % 2 else 0.0) for x in p] for i, p in enumerate(base)]
+        info = {"gap": gap}
+    return base, info
+
+
+def num_text(x):
+    """a file token that reads back as exactly this double: %g when that is lossless (the old spelling), else repr"""
+    s = fmt(x)
+    return s if float(s) == x else repr(float(x))
+
+
+def gen_lib_case(rng, tables, geom=None, method=None, big=False, exponent=None, plain=False):
+    if geom is None:
+        geom = "lattice" if rng.random() < 0.4 else rng.choice(GEOMETRIES[1:])
+    uniq, ginfo = gen_points(rng, geom, big, exponent)
     randomised = rng.random() < 0.4
-    m = rng.choice(RANDOM_METHODS if randomised else DET_METHODS)
+    m = method or rng.choice(RANDOM_METHODS if randomised else DET_METHODS)
+    randomised = m in RANDOM_METHODS
+    if plain:
+        # the --precompute sweep: one method, default-ish options, the geometry is what varies
+        args = [("method", m), ("num-neighbors", str(rng.choice([4, 5, 6]))), ("target-dimension", "2")]
+        if m in ("dm", "diffusion_map"):
+            args.append(("timesteps", "2"))
+        return {"kind": "lib", "geom": geom, "ginfo": ginfo, "args": bounded(args), "pair": True, "proj": False,
+                "content": "".join(",".join(num_text(x) for x in r) + "\n" for r in uniq), "points": uniq,
+                "seed": rng.randrange(1, 2 ** 31 - 1)}
     args = [(rng.choice(["m", "method"]), m)]
     args.append((rng.choice(["k", "num-neighbors"]), str(rng.choice([4, 5, 6, 8]))))
     if rng.random() < 0.6:
@@ -789,9 +872,30 @@ def gen_lib_case(rng, tables):
     # projection is written "when both files are requested": nothing must be written)
     proj = rng.choice(["both", "both", "mat", "mean"]) if (rng.random() < 0.6 and m in LINEAR) else False
     file_rows = transpose(uniq) if "transpose-input" in flags else uniq
-    content = write_text(file_rows, d)
-    return {"kind": "lib", "args": args, "content": content, "points": uniq, "proj": proj,
-            "seed": rng.randrange(1, 2 ** 31 - 1)}
+    content = "".join(d.join(num_text(x) for x in r) + "\n" for r in file_rows)
+    # pair: the tool is also run with the --precompute flag toggled; both runs must write the same text
+    return {"kind": "lib", "geom": geom, "ginfo": ginfo, "args": args, "content": content, "points": uniq,
+            "proj": proj, "pair": True, "seed": rng.randrange(1, 2 ** 31 - 1)}
+
+
+def gen_precompute_sweep(rng, tables, big):
+    """every deterministic method (each spelling) x every data geometry, plain options: the tool with and
+    without --precompute (and the in-process library) on offsets 1e3 .. 1e9 times the spread, per-column
+    offsets, huge / tiny magnitudes, duplicates, scaled tie lattices, wide data, separated clusters"""
+    cases = []
+    names = [["lle", "locally_linear_embedding"], ["ltsa"], ["hlle"], ["mds", "multidimensional_scaling"], ["isomap"],
+             ["dm", "diffusion_map"], ["kpca", "kernel_pca"], ["pca"], ["la", "laplacian_eigenmaps"], ["lpp"], ["npe"],
+             ["lltsa"]]
+    for spell in names:
+        m = rng.choice(spell)
+        exps = OFFSET_EXPONENTS if big else rng.sample(OFFSET_EXPONENTS[:3], 1) + rng.sample(OFFSET_EXPONENTS[3:], 2)
+        for e in exps:
+            cases.append(gen_lib_case(rng, tables, "offset_common", m, big, exponent=e, plain=True))
+        cases.append(gen_lib_case(rng, tables, "offset_percol", m, big, plain=True))
+        for g in (["huge", "tiny", "dups", "ties_scaled", "wide", "clusters"] if big
+                  else [rng.choice(["huge", "tiny"]), rng.choice(["dups", "ties_scaled", "wide", "clusters"])]):
+            cases.append(gen_lib_case(rng, tables, g, m, big, plain=True))
+    return cases
 
 
 # ----------------------------------------------------------------------------- evaluation
@@ -1067,6 +1171,75 @@ class Checker:
         best["lengths"] = [len(r) for r in rows]
         return best, bres
 
+    # ---------------- --precompute changes nothing but speed
+    def lib_tool_run(self, c, args):
+        proj = c.get("proj")
+        proj = "both" if proj is True else proj
+        extra = ["pm.txt", "pv.txt"] if proj else []
+        argv = argv_of(args) + (["--opmat", self.tool.path("pm.txt")] if proj in ("both", "mat") else []) \
+            + (["--opmean", self.tool.path("pv.txt")] if proj in ("both", "mean") else [])
+        return argv, self.tool.cli(argv, lib_content(c, args), extra_files=extra, seed=c.get("seed"))
+
+    @staticmethod
+    def pair_differs(direct, pre):
+        """two runs of the tool whose command lines differ only in --precompute: what differs (None = nothing)"""
+        for name, r in (("without", direct), ("with", pre)):
+            if crashed(r):
+                return "the tool crashed or hung %s --precompute (rc=%s): %s" % (name, r["rc"], r["err"][-200:])
+        if (direct["rc"] != 0) != (pre["rc"] != 0):
+            return "exit status %d without --precompute (%s), %d with it (%s)" % (
+                direct["rc"], direct["err"].strip()[-120:], pre["rc"], pre["err"].strip()[-120:])
+        if direct["rc"] != 0:
+            return None
+        if direct["output"] != pre["output"]:
+            return "embedding written without --precompute %r, with it %r" % (
+                first_difference(direct["output"], pre["output"]))
+        for k in sorted(set(direct["files"]) | set(pre["files"])):
+            if direct["files"].get(k) != pre["files"].get(k):
+                return "projection file %s without --precompute %r, with it %r" % (
+                    (k,) + first_difference(direct["files"].get(k), pre["files"].get(k)))
+        return None
+
+    def pair_once(self, c, args, first=None):
+        """runs the command line (unless `first` is its result already) and its --precompute toggle"""
+        has = any(n == "precompute" for n, _ in args)
+        other = [a for a in args if a[0] != "precompute"] if has else list(args) + [("precompute", None)]
+        r1 = first if first is not None else self.lib_tool_run(c, args)[1]
+        r2 = self.lib_tool_run(c, other)[1]
+        return self.pair_differs(r2, r1) if has else self.pair_differs(r1, r2)
+
+    def pair_verdict(self, c, res):
+        """(why, case): why = None when the two runs agree; otherwise the case is shrunk first (options dropped
+        one by one, then samples, while the two runs still differ; at most 30 extra pairs)"""
+        args = [tuple(a) for a in c["args"]]
+        why = self.pair_once(c, args, res)
+        if why is None:
+            return None, c
+        best, budget = dict(c, args=[list(a) for a in args]), 30
+        changed = True
+        while changed and budget > 0:
+            changed = False
+            bargs, pts = [tuple(a) for a in best["args"]], best["points"]
+            cands = [dict(best, args=[list(a) for a in bargs[:i] + bargs[i + 1:]]) for i in range(len(bargs))
+                     if bargs[i][0] not in ("m", "method", "precompute", "d")]
+            if len(pts) > 5:
+                step = max(1, len(pts) // 4)
+                cands += [dict(best, points=pts[:i] + pts[i + step:]) for i in range(0, len(pts), step)
+                          if len(pts) - step >= 5]
+            for cand in cands:
+                if budget <= 0:
+                    break
+                budget -= 1
+                cand.pop("content", None)
+                w = self.pair_once(cand, [tuple(a) for a in cand["args"]])
+                if w is not None and "crashed" not in w:
+                    best, why, changed = cand, w, True
+                    break
+        best["content"] = lib_content(best, [tuple(a) for a in best["args"]])
+        best["argv"] = argv_of([tuple(a) for a in best["args"]])
+        return "--precompute changes more than speed (documented: the tables hold the values the callbacks " \
+               "return): " + why, best
+
     # ---------------- library equivalence
     def library(self, cases):
         ctx = self.ctx
@@ -1105,12 +1278,20 @@ class Checker:
             self.evals += 1
             meth = dict((n, v) for n, v in args if n in ("m", "method")).popitem()[1]
             self.count("lib:" + meth)
+            self.count("geom:" + c.get("geom", "lattice"))
             if crashed(res):
                 ctx.violation(c, "the tool crashed or hung (rc=%s): %s" % (res["rc"], res["err"][-300:]))
                 continue
             d = dict((n, v) for n, v in args if v is not None).get("d", ",")[:1]
             to = any(n == "transpose-output" for n, _ in args)
             pre = any(n == "precompute" for n, _ in args)
+            if c.get("pair"):
+                # "--precompute changes nothing but speed": the same command line with the flag toggled
+                self.evals += 1
+                self.count("pair:" + ("precompute-first" if pre else "direct-first"))
+                why, small = self.pair_verdict(c, res)
+                if why:
+                    ctx.violation(small, why)
             if b.startswith("EXC"):
                 if res["rc"] == 0:
                     ctx.violation(dict(c, argv=argv), "the library throws for the documented parameters (%s) but the "
@@ -1120,18 +1301,23 @@ class Checker:
             try:
                 nr = int(m.group(1))
                 body = b[m.end():].split("\n")
-                emb = [[float(x) for x in l.split(",")] if l else [] for l in body[:nr]]
+                # the in-process driver prints doubles the way the tool does (ostream, 6 significant digits): the
+                # tokens are kept as text (nan / -nan / inf included), only checked to be numbers
+                emb = [l.split(",") if l else [] for l in body[:nr]]
+                for r in emb:
+                    for x in r:
+                        float(x)
             except (AttributeError, ValueError):
                 ctx.mismatch(c, "in-process library printed an unreadable embedding: %r" % b[:200])
                 continue
             rest = "\n".join(body[nr:])
-            want = write_text(transpose(emb) if to else emb, d)
+            want = join_text(transpose(emb) if to else emb, d)
             self.nontrivial.add(case_id(c))
             why = None
             if res["rc"] != 0:
                 why = "the library embeds this input with the documented parameters, the tool exits %d: %s" % (
                     res["rc"], res["err"][-200:])
-            elif res["output"] != want and not (pre and close_text(res["output"], want, d)):
+            elif res["output"] != want:
                 why = "the embedding written is not the one the library returns for the documented parameters: " \
                       "expected %r got %r" % (want[:160], (res["output"] or "")[:160])
             elif proj in ("mat", "mean"):
@@ -1143,15 +1329,17 @@ class Checker:
                 pm = re.search(r"PM (\d+) (\d+)\n(.*?)PV (\d+)\n(.*)", rest, re.S)
                 if pm:
                     try:
-                        wpm = write_text([[float(x) for x in l.split(",")] for l in pm.group(3).split("\n") if l], d)
-                        wpv = "".join(fmt(float(l)) + "\n" for l in pm.group(5).split("\n") if l)
+                        wpm = join_text([l.split(",") for l in pm.group(3).split("\n") if l], d)
+                        wpv = "".join(l + "\n" for l in pm.group(5).split("\n") if l)
+                        for x in (wpm.replace(d, "\n") + wpv).split("\n"):
+                            float(x or "0")
                     except ValueError:
                         ctx.mismatch(c, "in-process library printed an unreadable projection: %r" % rest[:200])
                         continue
                     gpm, gpv = res["files"].get("pm.txt"), res["files"].get("pv.txt")
-                    if gpm != wpm and not (pre and close_text(gpm, wpm, d)):
+                    if gpm != wpm:
                         why = "projection matrix file: expected %r got %r" % (wpm[:120], (gpm or "")[:120])
-                    elif gpv != wpv and not (pre and close_text(gpv, wpv, d)):
+                    elif gpv != wpv:
                         why = "projection mean file: expected %r got %r" % (wpv[:120], (gpv or "")[:120])
             if why:
                 ctx.violation(dict(c, argv=argv), why)
@@ -1160,19 +1348,28 @@ class Checker:
                                  "content": cases[0]["content"][:200]})
 
 
-def close_text(got, want, d):
-    """--precompute may differ in the last printed digit: same shape, entries within 1e-4 relative"""
-    if got is None:
-        return False
-    try:
-        g = [[float(x) for x in l.split(d)] for l in got.split("\n") if l]
-        w = [[float(x) for x in l.split(d)] for l in want.split("\n") if l]
-    except ValueError:
-        return False
-    if [len(r) for r in g] != [len(r) for r in w]:
-        return False
-    scale = max([abs(x) for r in w for x in r] + [1e-12])
-    return all(abs(a - b) <= 1e-4 * scale for rg, rw in zip(g, w) for a, b in zip(rg, rw))
+def join_text(rows, d):
+    return "".join(d.join(r) + "\n" for r in rows)
+
+
+def lib_content(c, args):
+    """the input file of a library case: the stored text, or (shrunk cases) the points written one sample per
+    line (one coordinate per line with --transpose-input) with the case's delimiter"""
+    if "content" in c:
+        return c["content"]
+    d = dict((n, v) for n, v in args if v is not None).get("d", ",")[:1]
+    rows = transpose(c["points"]) if any(n == "transpose-input" for n, _ in args) else c["points"]
+    return "".join(d.join(num_text(x) for x in r) + "\n" for r in rows)
+
+
+def first_difference(a, b):
+    """the first lines on which two texts differ"""
+    la, lb = (a or "").split("\n"), (b or "").split("\n")
+    for i in range(max(len(la), len(lb))):
+        x, y = la[i] if i < len(la) else None, lb[i] if i < len(lb) else None
+        if x != y:
+            return ("line %d: %s" % (i + 1, x))[:120], ("line %d: %s" % (i + 1, y))[:120]
+    return (a or "")[:80], (b or "")[:80]
 
 
 def gen_small_files(limit=None):
@@ -1381,7 +1578,9 @@ def run_inner(ctx):
         ck.files([gen_ragged_case(rng) for _ in range(600 if big else 150)])
         ck.files(gen_ragged_exhaustive(rng, big))
         times["files_done_s"] = round(ctx.elapsed(), 1)
-        ck.library([gen_lib_case(rng, tables) for _ in range(300 if big else 60)])
+        ck.library([gen_lib_case(rng, tables, big=big) for _ in range(300 if big else 60)])
+        # --precompute vs direct (and vs the in-process library): every deterministic method x data geometry
+        ck.library(gen_precompute_sweep(rng, tables, big))
         times["library_done_s"] = round(ctx.elapsed(), 1)
         if ctx.is_unshown() and not big:
             # search phase: an obligation or the correspondence broke during the run
@@ -1389,7 +1588,8 @@ def run_inner(ctx):
             ck.files([gen_file_case(rng) for _ in range(600)])
             ck.files([gen_ragged_case(rng) for _ in range(600)])
             ck.files(gen_ragged_exhaustive(rng, True))
-            ck.library([gen_lib_case(rng, tables) for _ in range(200)])
+            ck.library([gen_lib_case(rng, tables, big=True) for _ in range(200)])
+            ck.library(gen_precompute_sweep(rng, tables, True))
     finally:
         shutil.rmtree(tool.dir, ignore_errors=True)
     ctx.finish(
@@ -1400,8 +1600,9 @@ def run_inner(ctx):
              "wiring: every option spelling once with a valid and a malformed value, every method name, then "
              "random option mixes (non-trivial = the specification says Run and the --debug echo was compared); "
              "files: random token matrices through passthru (non-trivial = at least 2 rows accepted by the "
-             "independent reader, or a ragged file from the malformed stream, which must be rejected); library: deterministic methods vs in-process calls (non-trivial = library "
-             "returned an embedding). distinct by hash of the case.",
+             "independent reader, or a ragged file from the malformed stream, which must be rejected); library: deterministic and seeded randomised methods vs in-process calls, exact text, "
+             "plus the same command line with --precompute toggled (one more evaluation; the two runs must write the same "
+             "text), over the data geometries of the histogram keys geom:* (non-trivial = library returned an embedding). distinct by hash of the case.",
         samples=ck.samples, histogram=ck.hist, trusted_base=TRUSTED, assumptions=ASSUMPTIONS,
         extra={"traces_validated_against_impl": ck.evals, "phase_times": times,
                "translator_tables": {"options": len(tables.get("options", [])), "exits": len(tables.get("exits", [])),
